@@ -40,7 +40,7 @@ EXPLANATION = "update data flow proved for all values under the all-gather contr
 def cases(tier):
     # ctor/ddp: the C14 constructor contract (owner used for selection / state == owner whose gather-buffer segment holds the block, all ranks
     # agree), re-discharged here because "every rank applies every owner's direction exactly once" rests on it
-    return D.update_params_cases("ddp") + ["trace/step", "trace/alloc", "ri/world2", "ri/world3", "ribare/ddp", "ctor/ddp"]
+    return D.update_params_cases("ddp") + ["trace/step", "trace/alloc", "ri/world2", "ri/world3", "ribare/ddp", "ctor/ddp", "commdtype/ddp"]
 
 
 def _ri_case(case):
@@ -100,6 +100,9 @@ def _ri_case(case):
 
 
 def run_case(case, tier, seed):
+    if case.startswith("commdtype/"):
+        from checks import dist as _D
+        return _D.run_comm_dtype(case)
     if case == "ctor/ddp":
         from checks import c14
         return [dict(r, replay=dict(kind="ddp_native")) for r in c14._ctor_case(case)]
@@ -207,6 +210,10 @@ def replay(r):
 
 def replay_file(doc):
     rp = doc.get("replay_input") or {}
+    if rp.get("kind") == "commdtype":
+        from checks import dist as _D
+        bad = _D.native_comm_dtype(rp["copy"])
+        return bool(bad), bad or "communication dtype mapping holds on the real constructor"
     if rp.get("kind") == "ddp_native_case":
         bad, hist = _native_ddp_hist(rp["world"], rp["group"], rp["comm"], rp["cp"], rp["seed"], "safe")
         return bool(bad), f"{rp} history {hist}: {bad}"
